@@ -24,7 +24,7 @@ impl Prop for C10 {
     type Case = Case;
     const ID: &'static str = "C10";
     const NUM: u64 = 10;
-    const RULE: &'static str = "AdjacencyMap digraphs with vertex set 0..order: enum leg = every digraph of order <=4 (quick) / <=5 (thorough, 2^20 digraphs of order 5); random leg = order 1..7 (uniform densities, 15 structured families incl. complete digraphs, cycles, two circuits joined by an arc), plus 'dense core + tails' and subdivisions (a dense core of 3..5 vertices whose arcs are replaced by chains of degree-(1,1) vertices, randomly relabelled, order <= 12). Non-trivial = at least 3 circuits and two circuits that share a vertex other than their own start vertices; distinct = distinct serialised case.";
+    const RULE: &'static str = "AdjacencyMap digraphs with vertex set 0..order: enum leg = every digraph of order <=4 (quick) / <=5 (thorough, 2^20 digraphs of order 5); random leg = order 1..7 (uniform densities, 15 structured families incl. complete digraphs, cycles, two circuits joined by an arc), plus 'dense core + tails' and subdivisions (a dense core of 3..5 vertices whose arcs are replaced by chains of degree-(1,1) vertices, randomly relabelled, order <= 12). circuits() is called twice on the same instance and must enumerate the same circuits. Non-trivial = at least 3 circuits and two circuits that share a vertex other than their own start vertices; distinct = distinct serialised case.";
     const ASSUMPTIONS: &'static [&'static str] = &[
         "the order of the returned list is free (compared as a set after a no-duplicates check)",
         "order is capped at 7: the brute-force reference is exponential (K7 has 2365 circuits)",
